@@ -18,7 +18,7 @@ def splitToks (line : String) : List String :=
   (line.trimAscii.toString.splitOn " ").filter (· != "")
 
 def c08Ops : List String :=
-  ["rec-compare", "tiebreak", "probe-time", "name-change", "hostname-change", "check-name", "split-sub",
+  ["rec-compare", "tiebreak", "probe-time", "probe-run", "name-change", "hostname-change", "check-name", "split-sub",
    "escaped-labels"]
 
 def c18Ops : List String := ["if-match", "select", "resolve-addr", "select-at", "valid-ip", "addrs-on-intf"]
